@@ -85,7 +85,15 @@ impl BuildJob<'_> {
         let before_t = try_stat(self.t.as_path()).map_err(RedoError::opaque_error)?;
         debug_assert!(self.lock.is_owned());
         #[cfg(feature = "verif")]
-        crate::verif::point("job.begin", &format!("{} {}", self.lock.file_id(), self.t));
+        crate::verif::point(
+            "job.begin",
+            &format!(
+                "{} {} {}",
+                self.lock.file_id(),
+                if ptx.state().env().is_unlocked() { "unlocked" } else { "locked" },
+                self.t
+            ),
+        );
         let (is_target, dirty) = match (self.should_build_func)(&mut ptx, &self.t) {
             Ok(x) => x,
             Err(e) => {
@@ -491,6 +499,8 @@ impl BuildJob<'_> {
             None,
         );
         let state = ptx.commit().map_err(RedoError::opaque_error)?;
+        #[cfg(feature = "verif")]
+        crate::verif::point("job.oob", &format!("{}", self.lock.file_id()));
         let job = server.start(self.t.into_string(), || {
             env::set_var(ENV_DEPTH, {
                 let mut depth = state.env().depth().to_string();
@@ -509,6 +519,8 @@ impl BuildJob<'_> {
         Ok(Box::pin(async move {
             let _lock = lock; // ensure we hold the lock until after the job has finished
             let rv = job.await;
+            #[cfg(feature = "verif")]
+            crate::verif::point("job.oob.end", &format!("{} {}", _lock.file_id(), rv));
             rv
         }))
     }
